@@ -109,15 +109,50 @@ impl MarketAgent for MProbeB {
     }
 }
 
+/// Environment configuration a shape is run under, packed into the upper half of the "seed":
+/// step size (1000, 1, 2, 8), instructions already waiting in the queue when the set's update
+/// starts (0, 1, 3: submitted by the harness itself before every update), and the call pattern
+/// (update-step-update, or update-update-step-update).
+pub fn configs(thorough: bool) -> Vec<u64> {
+    let mut v = Vec::new();
+    for ss in 0..4u64 {
+        for pre in 0..3u64 {
+            for pat in 0..2u64 {
+                let _ = thorough; // (cheap: every configuration runs in both tiers)
+                v.push(ss | pre << 2 | pat << 4);
+            }
+        }
+    }
+    v
+}
+fn cfg_of(seed: u64) -> (u64, usize, bool, u64) {
+    let c = seed >> 32;
+    ([1000u64, 1, 2, 8][(c & 3) as usize], [0usize, 1, 3][((c >> 2) & 3) as usize % 3], (c >> 4) & 1 == 1, seed & 0xFFFF_FFFF)
+}
+pub fn cfg_text(seed: u64) -> String {
+    let (ss, pre, twice, s) = cfg_of(seed);
+    format!("seed {} step size {} instructions waiting before each update {} pattern {}", s, ss, pre, if twice { "update,update,step,update" } else { "update,step,update" })
+}
+
 #[allow(non_snake_case)]
 fn trace_S<T>(seed: u64, make: fn(&Log) -> T, upd: fn(&mut T, &mut Env, &mut Xoroshiro128StarStar)) -> Trace {
+    let (ss, pre, twice, seed) = cfg_of(seed);
     let log: Log = Rc::new(RefCell::new(Vec::new()));
     let mut a = make(&log);
-    let mut env = Env::new(0, 1, 1000, true);
+    let mut env = Env::new(0, 1, ss, true);
     let mut rng = Xoroshiro128StarStar::seed_from_u64(seed);
-    upd(&mut a, &mut env, &mut rng);
+    let mut go = |a: &mut T, env: &mut Env, rng: &mut Xoroshiro128StarStar| {
+        for k in 0..pre {
+            env.place_order(Side::Bid, 7, 9000 + k as u32, Some(3)).unwrap();
+        }
+        upd(a, env, rng);
+    };
+    go(&mut a, &mut env, &mut rng);
+    if twice {
+        go(&mut a, &mut env, &mut rng);
+    }
     env.step(&mut rng);
-    upd(&mut a, &mut env, &mut rng);
+    go(&mut a, &mut env, &mut rng);
     let orders = vec![env.get_orders().into_iter().map(OrderRec::of).collect()];
     let l = log.borrow().clone();
     let _ = fp_menv;
@@ -128,11 +163,21 @@ fn trace_S<T>(seed: u64, make: fn(&Log) -> T, upd: fn(&mut T, &mut Env, &mut Xor
 fn trace_M<T>(seed: u64, make: fn(&Log) -> T, upd: fn(&mut T, &mut MarketEnv<2, 3>, &mut Xoroshiro128StarStar)) -> Trace {
     let log: Log = Rc::new(RefCell::new(Vec::new()));
     let mut a = make(&log);
-    let mut env: MarketEnv<2, 3> = MarketEnv::new(0, [1, 1], 1000, true);
+    let (ss, pre, twice, seed) = cfg_of(seed);
+    let mut env: MarketEnv<2, 3> = MarketEnv::new(0, [1, 1], ss, true);
     let mut rng = Xoroshiro128StarStar::seed_from_u64(seed);
-    upd(&mut a, &mut env, &mut rng);
+    let mut go = |a: &mut T, env: &mut MarketEnv<2, 3>, rng: &mut Xoroshiro128StarStar| {
+        for k in 0..pre {
+            env.place_order(k % 2, Side::Bid, 7, 9000 + k as u32, Some(3)).unwrap();
+        }
+        upd(a, env, rng);
+    };
+    go(&mut a, &mut env, &mut rng);
+    if twice {
+        go(&mut a, &mut env, &mut rng);
+    }
     env.step(&mut rng);
-    upd(&mut a, &mut env, &mut rng);
+    go(&mut a, &mut env, &mut rng);
     let orders = (0..2).map(|x| env.get_orders(x).into_iter().map(OrderRec::of).collect()).collect();
     let l = log.borrow().clone();
     Trace { log: l, orders, next_draw: rng.next_u64() }
@@ -143,7 +188,9 @@ include!(concat!(env!("OUT_DIR"), "/c20_gen.rs"));
 pub fn c20(tier: &str) -> i32 {
     let mut out = Outcome::new("C20", tier, "model_checking");
     let t = crate::bookprops::thorough(tier);
-    let seeds: Vec<u64> = if t { (0..8).collect() } else { vec![0, 1] };
+    let base_seeds: Vec<u64> = if t { (0..8).collect() } else { vec![0, 1] };
+    let cfgs = configs(t);
+    let seeds: Vec<u64> = cfgs.iter().flat_map(|c| base_seeds.iter().map(move |s| c << 32 | s)).collect();
     let mut programs = 0u64;
     let mut calls = 0u64;
     let mut fails: Vec<(String, String, serde_json::Value)> = Vec::new();
@@ -152,6 +199,7 @@ pub fn c20(tier: &str) -> i32 {
         programs += 1;
         calls += h.log.len() as u64;
         if samples.len() < 3 && word.len() == 3 && seed == 0 {
+            // (configuration 0, seed 0)
             samples.push(json!({"macro": mac, "field_kinds": word, "seed": seed, "hand_written_log": h.log.iter().map(|e| format!("tag {} draw {}", e.0, e.2)).collect::<Vec<_>>()}));
         }
         if d != h {
@@ -180,8 +228,8 @@ pub fn c20(tier: &str) -> i32 {
             };
             fails.push((
                 format!("derive/{}/{}", mac, clause),
-                format!("struct with field kinds {} (A/B probe agents, N nested derived set): derived update logged tags {:?}, hand-written calls {:?}", word, tags_d, tags_h),
-                json!({"macro": mac, "field_kinds": word, "seed": seed}),
+                format!("struct with field kinds {} (A/B probe agents, N/T/F nested derived sets of 2/3/5 members), {}: derived update logged tags {:?}, hand-written calls {:?}", word, cfg_text(seed), tags_d, tags_h),
+                json!({"macro": mac, "field_kinds": word, "config": cfg_text(seed)}),
             ));
         }
     };
@@ -191,8 +239,9 @@ pub fn c20(tier: &str) -> i32 {
     out.set("transitions", json!(calls));
     out.set("traces_validated_against_impl", json!(programs));
     out.set("programs", json!(2 * N_SHAPES));
-    out.set("seeds", json!(seeds));
-    out.set("rule", json!("every word of length 1..4 over field kinds {A, B, N(ested derived set)} plus 14 shapes of 5..8 fields, and every word of length 1..3 plus two long shapes re-declared with six syntactic decorations (field attributes incl. #[rustfmt::skip] / #[cfg(all())] / doc comments, struct attributes around the derive, mixed visibilities, type paths and parenthesised types, raw identifiers, a macro_rules! template passing the member types as `ty` fragments), for both derive macros; two consecutive update calls with a step in between; log of (tag, environment fingerprint, draw), final orders and next generator draw compared with the flattened hand-written calls"));
+    out.set("seeds", json!(base_seeds));
+    out.set("environment_configurations", json!(cfgs.iter().map(|c| cfg_text(c << 32)).collect::<Vec<_>>()));
+    out.set("rule", json!("every word of length 1..4 over field kinds {A, B, N(ested derived set)} plus 14 shapes of 5..8 fields and 17 shapes holding nested sets of three and five members (larger than the set they sit in), and every word of length 1..3 plus two long shapes re-declared with six syntactic decorations (field attributes incl. #[rustfmt::skip] / #[cfg(all())] / doc comments, struct attributes around the derive, mixed visibilities, type paths and parenthesised types, raw identifiers, a macro_rules! template passing the member types as `ty` fragments), for both derive macros; run under several environment configurations (step sizes 1000, 1, 2, 8; 0, 1 or 3 instructions already waiting in the queue before each update; update-step-update and update-update-step-update); log of (tag, environment fingerprint, draw), final orders and next generator draw compared with the flattened hand-written calls"));
     for s in samples {
         out.push("samples", s);
     }
